@@ -166,3 +166,23 @@ Proof.
   cbn in H. destruct H as (_ & _ & H). exists r. split; auto.
   intros x. specialize (C x). specialize (E x). repeat rewrite ?cnt_cons, ?cnt_nil in *. lia.
 Qed.
+
+(* replace adjacent (a,b),(b,c) by (a,c) *)
+Lemma tiling_merge p l q l2 a b c : Tiling p l q -> In (a, b) l -> In (b, c) l ->
+  (forall x, cnt x l2 + cnt x [(a, b); (b, c)] = cnt x l + cnt x [(a, c)]) -> Tiling p l2 q.
+Proof.
+  intros (l' & C & H) I1 I2 E.
+  assert (I1' : In (a, b) l') by (apply cnt_pos_in; rewrite C; apply cnt_pos_in; auto).
+  assert (I2' : In (b, c) l') by (apply cnt_pos_in; rewrite C; apply cnt_pos_in; auto).
+  destruct (in_split _ _ I1') as (l1 & l3 & ->).
+  apply chain_app in H. destruct H as (m & H1 & H2). cbn in H2. destruct H2 as (-> & Lab & H3).
+  apply in_app_or in I2'. destruct I2' as [I2'|[I2'|I2']].
+  - exfalso. destruct (chain_in_bounds _ _ _ _ _ H1 I2') as (_ & Lbc & Lc).
+    eapply plt_irrefl. eapply plt_trans; [exact Lab|]. eapply plt_ple_trans; eauto.
+  - injection I2' as <- <-. exfalso. eapply plt_irrefl; eauto.
+  - destruct (chain_head_unique _ _ _ _ _ H3 I2' eq_refl) as (r & ->).
+    cbn in H3. destruct H3 as (_ & Lbc & H4).
+    exists (l1 ++ (m, c) :: r). split.
+    + intros x. specialize (C x). specialize (E x). repeat rewrite ?cnt_app, ?cnt_cons, ?cnt_nil in *. lia.
+    + apply chain_app. exists m. split; auto. cbn. repeat split; auto. eapply plt_trans; eauto.
+Qed.
